@@ -568,8 +568,8 @@ def parseChunk(raw):  # reading transfer encoded raw
     if exts:  # parse extensions parameters
         exts = exts.split(b';')
         for ext in exts:
-            ext = ext.strip()
-            name, sep, value = ext.partition(b'=')
+            ext = ext.strip().decode('iso-8859-1')  # str so usable as dict key
+            name, sep, value = ext.partition('=')
             parms[name.strip()] = value.strip() or None
 
     if size == 0:  # last chunk so parse trailing headers if any
